@@ -3,7 +3,8 @@ import JaqalProofs.Lemmas.BuilderMemo
 # C07 — lexical scoping; the meaning of a statement ignores unrelated statements
 
 Model: `JaqalModel/Model/Builder.lean` (`build` = the builder with its gate memo table keyed as `_make_gate_memo_key`
-keys it today, `buildNoMemo` = the same builder without the table, `buildOldKey` = the key before the repair).
+keys it today, `buildNoMemo` = the same builder without the table, `buildOldNumKey` / `buildOldKey` = the keys before
+the two repairs).
 
 * `C07_innermost_param`, `C07_innermost_header`: in the context a macro body is built in (`{**context, **params}`,
   `Ctx.withParams`) an identifier is the parameter of that name if there is one, else the header binding.
@@ -11,19 +12,21 @@ keys it today, `buildNoMemo` = the same builder without the table, `buildOldKey`
   definition, and the bindings of the names that occur in its arguments (`entsOfList ctx args`) — not on the rest of
   the context, the block flags, or the fuel.
 * `C07_memo_sound`: a memo hit returns what building the statement afresh in the current context returns.
-* `C07_memo_transparent_partial`: `build cfg e = buildNoMemo cfg e` whenever (i) `e` contains no float literal with
-  an integral value and (ii) `autoload_pulses` is off or every `usepulses` child of the circuit precedes every child
-  that can build a gate statement (the parser guarantees (ii): header statements come first).
-* The full statement `C07_memo_transparent_full` is FALSE for the code as it is, for two reasons, both witnessed:
-  - `C07_memo_conflates_numerals`: `g 1; g 1.0` — the dictionary key compares numbers with Python `==`, so the
-    second statement is the memoised first one and carries the int `1` instead of the float `1.0`
-    (observed on the real builder; reachable from program text);
-  - `C07_memo_stale_after_usepulses`: `usepulses a; X r[0]; usepulses b; X r[0]` with autoload — the key does not
-    cover the gate table, so the second `X r[0]` is bound to module `a`'s definition although module `b` has
-    replaced it (not reachable from program text: the parser rejects a header statement after a body statement).
-* `C07_old_key_counterexample`: with the key as it was before the repair (context entries of top-level string
-  arguments only), `let a 1; register r[3]; macro foo a { g r[a] }; g r[a]` binds the `a` of the main-body statement to
-  the macro's parameter.
+* `C07_memo_transparent_parser`: `build cfg e = buildNoMemo cfg e` for every parser-shaped expression (`ParserShaped`:
+  a circuit whose header children — register, map, let, usepulses — all precede its body children, which is what the
+  grammar enforces: "Header statement … found after body statement").
+* `C07_memo_transparent_partial`: the same for ANY expression when `autoload_pulses` is off, or every `usepulses`
+  child of the circuit precedes every child that can build a gate statement (`orderOK`).
+* The full statement `C07_memo_transparent_full` (all expressions, all configurations) is FALSE for the code as it is:
+  `C07_memo_stale_after_usepulses`: `usepulses a; X r[0]; usepulses b; X r[0]` with autoload — the key does not
+  cover the gate table, so the second `X r[0]` is bound to module `a`'s definition although module `b` has
+  replaced it. Not reachable from program text.
+* Documentation of what the two repairs of the key fixed:
+  `C07_memo_conflates_numerals` (key before numbers were typed: `g 1; g 1.0` built the second statement with the int
+  `1`) and `C07_old_key_counterexample` (key before it covered names inside array items:
+  `let a 1; register r[3]; macro foo a { g r[a] }; g r[a]` bound the `a` of the main-body statement to the macro's
+  parameter). With today's key both programs are built as without the table (`C07_numerals_fixed`,
+  `C07_old_key_counterexample_detail`).
 -/
 namespace Jaqal.Builder
 open Jaqal
@@ -133,11 +136,10 @@ example : entsOfList { vars := [("r", .regF "r" (.int 3))] } [.list [.str "array
 building that gate statement returns in any context that agrees with the key" (`MemoOK`) is kept by every step of the
 builder (`buildAny_sim`), and under it `build_gate` with the table and without it return the same statement. -/
 theorem C07_memo_sound (cfg : Config) (ctx : Ctx) (f : Nat) (args : List BSx) (st st' : St)
-    (hg : st.gctx = st'.gctx) (hm : MemoOK cfg st.memo st.gctx)
-    (hn : BSx.noIFList args = true) (hd : BSx.depthList args ≤ f) :
+    (hg : st.gctx = st'.gctx) (hm : MemoOK cfg st.memo st.gctx) (hd : BSx.depthList args ≤ f) :
     (buildGate cfg .new ctx (buildVal ctx f) args st).map (fun p => (p.1, p.2.gctx)) =
       (buildGate cfg .off ctx (buildVal ctx f) args st').map (fun p => (p.1, p.2.gctx)) := by
-  have := buildGate_sim cfg ctx f args st st' hg hm hn hd
+  have := buildGate_sim cfg ctx f args st st' hg hm hd
   cases h1 : buildGate cfg .new ctx (buildVal ctx f) args st with
   | error e =>
     cases h2 : buildGate cfg .off ctx (buildVal ctx f) args st' with
@@ -165,9 +167,9 @@ def C07_memo_transparent_full : Prop := ∀ (cfg : Config) (e : BSx), build cfg 
 
 theorem erase_toCircuit (a : Acc) : a.erase.toCircuit = a.toCircuit := rfl
 
-/-- The memo table changes nothing when the expression contains no float literal with an integral value and the
-`usepulses` statements precede everything that builds gate statements (or `autoload_pulses` is off). -/
-theorem C07_memo_transparent_partial (cfg : Config) (e : BSx) (hn : e.noIF = true)
+/-- The memo table changes nothing when the `usepulses` statements precede everything that builds gate statements
+(or `autoload_pulses` is off). -/
+theorem C07_memo_transparent_partial (cfg : Config) (e : BSx)
     (ho : cfg.autoload = false ∨ orderOK (circuitChildren e) = true) : build cfg e = buildNoMemo cfg e := by
   unfold build buildNoMemo buildWith
   cases hi : cfg.inject with
@@ -177,7 +179,6 @@ theorem C07_memo_transparent_partial (cfg : Config) (e : BSx) (hn : e.noIF = tru
     unfold buildCore
     split
     · rename_i children
-      simp only [BSx.noIF, BSx.noIFList, Bool.true_and] at hn
       simp only [circuitChildren] at ho
       have hsim := circuitLoop_sim cfg inject (BSx.depth (.list (.str "circuit" :: children)) + 1) children
         { st := { gctx := (inject.getD []).map (fun p => (p.1, GEntry.gdef p.2)) }, natives := inject.getD [] }
@@ -185,7 +186,6 @@ theorem C07_memo_transparent_partial (cfg : Config) (e : BSx) (hn : e.noIF = tru
         rfl (by intro k s hk; cases hk)
         (by
           intro c hc
-          refine ⟨?_, noIF_of_mem hn hc⟩
           simp only [BSx.depth, BSx.depthList]
           have := depth_le_of_mem hc
           omega)
@@ -200,7 +200,7 @@ theorem C07_memo_transparent_partial (cfg : Config) (e : BSx) (hn : e.noIF = tru
         rw [← erase_toCircuit a, ← erase_toCircuit a', he]
     · have hs := buildAny_sim cfg (e.depth + 1) {} e
         { gctx := (inject.getD []).map (fun p => (p.1, GEntry.gdef p.2)) }
-        { gctx := (inject.getD []).map (fun p => (p.1, GEntry.gdef p.2)) } (Nat.le_succ _) hn rfl
+        { gctx := (inject.getD []).map (fun p => (p.1, GEntry.gdef p.2)) } (Nat.le_succ _) rfl
         (by intro k s hk; cases hk)
       cases h1 : buildAny cfg .new (e.depth + 1) {} e { gctx := (inject.getD []).map (fun p => (p.1, GEntry.gdef p.2)) } with
       | error a =>
@@ -233,8 +233,10 @@ def progNumerals : BSx :=
   .list [.str "circuit", .list [.str "register", .str "r", .int 2],
     .list [.str "gate", .str "g", .int 1], .list [.str "gate", .str "g", .flt ⟨false, 1, 0⟩]]
 
-/-- With the memo table the statement `g 1.0` is built with the int `1` of the earlier `g 1`. -/
-theorem C07_memo_conflates_numerals : obs (build {} progNumerals) ≠ obs (buildNoMemo {} progNumerals) := by decide
+/-- What typing the numbers in the memo key fixed: with the key compared by Python `==` (`KeyMode.oldNum`) the
+statement `g 1.0` was built with the int `1` of the earlier `g 1`. -/
+theorem C07_memo_conflates_numerals : obs (buildOldNumKey {} progNumerals) ≠ obs (buildNoMemo {} progNumerals) := by
+  decide
 
 def gX1 : GateDef := { name := "X", tag := .native, params := [("q", .qubit)] }
 def gX2 : GateDef := { name := "X", tag := .native, params := [("q", .qubit), ("k", .int)] }
@@ -255,7 +257,7 @@ theorem C07_memo_stale_after_usepulses :
 
 theorem C07_memo_transparent_full_false : ¬ C07_memo_transparent_full := by
   intro h
-  exact C07_memo_conflates_numerals (by rw [h {} progNumerals])
+  exact C07_memo_stale_after_usepulses (by rw [h cfgTwoModules progStale])
 
 /-- `let a 1; register r[3]; macro foo a { g r[a] }; g r[a]` -/
 def progOldKey : BSx :=
@@ -276,12 +278,49 @@ theorem C07_old_key_counterexample_detail :
       = some [([("p0", .qubit "r[a]" (.regF "r" (.int 3)) (.const "a" (.int 1)))], some (anonDef "g" 1))] := by
   decide
 
-/-- non-vacuity of `C07_memo_transparent_partial`: the program above (textually identical statements in the macro
-and in the main body, parameter = let name) satisfies its hypotheses -/
-example : progOldKey.noIF = true ∧ orderOK (circuitChildren progOldKey) = true := by decide
+/-! ### Parser-shaped expressions -/
 
-example : build {} progOldKey = buildNoMemo {} progOldKey :=
-  C07_memo_transparent_partial {} progOldKey (by decide) (Or.inl rfl)
+theorem orderOK_of_notUse : ∀ (body : List BSx), (∀ c ∈ body, notUse c = true) → orderOK body = true := by
+  intro body
+  induction body with
+  | nil => intro _; rfl
+  | cons c cs ih =>
+    intro h
+    simp only [orderOK]
+    by_cases hp : statePure c = true
+    · simp only [hp, if_true]; exact ih (fun d hd => h d (by simp [hd]))
+    · simp only [hp]
+      simp only [Bool.false_eq_true, if_false, List.all_eq_true]
+      exact fun d hd => h d (by simp [hd])
+
+theorem orderOK_parserShaped : ∀ (hdr body : List BSx), (∀ c ∈ hdr, headerChild c = true) →
+    (∀ c ∈ body, bodyChild c = true) → orderOK (hdr ++ body) = true := by
+  intro hdr
+  induction hdr with
+  | nil => intro body _ hb; exact orderOK_of_notUse body (fun c hc => bodyChild_notUse (hb c hc))
+  | cons c cs ih =>
+    intro body hh hb
+    simp only [List.cons_append, orderOK, headerChild_statePure (hh c (by simp)), if_true]
+    exact ih body (fun d hd => hh d (by simp [hd])) hb
+
+/-- **C07 (memo transparency) for everything the parser can produce**: whatever textually identical statements occur
+elsewhere (in another macro, in the main body, earlier or later), every statement is built exactly as it would be
+built without the memo table. -/
+theorem C07_memo_transparent_parser (cfg : Config) (e : BSx) (h : ParserShaped e) : build cfg e = buildNoMemo cfg e := by
+  obtain ⟨hdr, body, rfl, hh, hb⟩ := h
+  exact C07_memo_transparent_partial cfg _ (Or.inr (orderOK_parserShaped hdr body hh hb))
+
+/-- non-vacuity: the old-key counterexample program is parser-shaped (textually identical statements in the macro and
+in the main body, parameter = let name) -/
+example : ParserShaped progOldKey :=
+  ⟨[.list [.str "let", .str "a", .int 1], .list [.str "register", .str "r", .int 3]],
+   [.list [.str "macro", .str "foo", .str "a", .list [.str "sequential_block",
+      .list [.str "gate", .str "g", .list [.str "array_item", .str "r", .str "a"]]]],
+    .list [.str "gate", .str "g", .list [.str "array_item", .str "r", .str "a"]]], rfl, by decide, by decide⟩
+
+/-- `g 1; g 1.0` is built as without the table now -/
+theorem C07_numerals_fixed : build {} progNumerals = buildNoMemo {} progNumerals :=
+  C07_memo_transparent_partial {} progNumerals (Or.inl rfl)
 
 end Jaqal.Builder
 
@@ -290,6 +329,8 @@ end Jaqal.Builder
 #print axioms Jaqal.Builder.C07_context_free
 #print axioms Jaqal.Builder.C07_memo_sound
 #print axioms Jaqal.Builder.C07_memo_transparent_partial
+#print axioms Jaqal.Builder.C07_memo_transparent_parser
+#print axioms Jaqal.Builder.C07_numerals_fixed
 #print axioms Jaqal.Builder.C07_memo_conflates_numerals
 #print axioms Jaqal.Builder.C07_memo_stale_after_usepulses
 #print axioms Jaqal.Builder.C07_memo_transparent_full_false
